@@ -53,6 +53,21 @@ void check_buf(Ctx &c, const struct aws_byte_buf &b, size_t lo, size_t hi, const
     }
 }
 
+// Buffers from rings of several GiB (address space only) are patterned and verified at both edges only
+static const size_t EDGE = 4096;
+void fill_buf(uint8_t *p, size_t n, uint64_t tag) {
+    if (n <= 2 * EDGE) { pat::fill(p, n, tag); return; }
+    pat::fill(p, EDGE, tag);
+    for (size_t i = n - EDGE; i < n; i++) p[i] = pat::byte_at(tag, i);
+}
+long first_bad_buf(const uint8_t *p, size_t n, uint64_t tag) {
+    if (n <= 2 * EDGE) return pat::first_bad(p, n, tag);
+    long b = pat::first_bad(p, EDGE, tag);
+    if (b >= 0) return b;
+    for (size_t i = n - EDGE; i < n; i++) if (p[i] != pat::byte_at(tag, i)) return (long)i;
+    return -1;
+}
+
 void do_acquire(Ctx &c, const sim::Op &op) {
     size_t n = (size_t)op.a, mn = (size_t)op.b;
     bool upto = op.kind == OP_ACQ_UPTO;
@@ -72,8 +87,9 @@ void do_acquire(Ctx &c, const sim::Op &op) {
         Entry e;
         e.buf = dest; e.ptr = dest.buffer; e.off = (size_t)(dest.buffer - c.ring.allocation); e.cap = dest.capacity; e.state = 0;
         e.tag = 0xC15000 + c.entries.size();
-        pat::fill(e.ptr, e.cap, e.tag);
+        fill_buf(e.ptr, e.cap, e.tag);
         c.entries.push_back(e);
+        if (e.cap >= ((size_t)1 << 31)) sim::probe("buffer_of_2GiB_or_more");
         sim::probe("acquire_ok");
         if (e.ptr == c.ring.allocation && c.entries.size() > 1) sim::probe("acquire_wrapped");
         c.gate.notify_all();
@@ -92,7 +108,7 @@ void do_acquire(Ctx &c, const sim::Op &op) {
 void do_release_next(Ctx &c) {
     if (c.next_release >= c.entries.size()) return;
     Entry &e = c.entries[c.next_release];
-    long bad = pat::first_bad(e.ptr, e.cap, e.tag);
+    long bad = first_bad_buf(e.ptr, e.cap, e.tag);
     if (bad >= 0)
         sim::violation("c15:clobbered", "buffer #%zu [%zd,+%zu): byte %ld was overwritten while the buffer was outstanding", c.next_release,
                        (ptrdiff_t)(e.ptr - c.ring.allocation), e.cap, bad);
@@ -206,6 +222,9 @@ void gen(uint64_t seed, int tier, sim::Plan &p) {
     p.seed = seed;
     static const std::vector<int64_t> sizes = {1, 2, 3, 8, 16, 64, 100, 4096};
     int64_t rs = r.pick(sizes);
+    // rings of 2-8 GiB (address space only: the ring code never touches the bytes): head and tail can be 2^31 and more apart
+    if (r.chance(tier ? 0.03 : 0.015))
+        rs = r.pick(std::vector<int64_t>{(int64_t)1 << 31, ((int64_t)1 << 31) + 1, (int64_t)3 << 30, ((int64_t)1 << 32) - 1, (int64_t)1 << 32, ((int64_t)1 << 32) + 4096, (int64_t)5 << 30, (int64_t)1 << 33});
     p.cfg["ring_size"] = rs;
     bool two = r.chance(0.8);
     p.cfg["two_threads"] = two;
@@ -270,7 +289,7 @@ std::string op_text(const sim::Op &op) {
 
 extern const Harness H_C15 = {
     "C15", "ring buffer never hands out overlapping memory", gen, run, op_text,
-    "Plans: ring size from {1,2,3,8,16,64,100,4096}, 2-200 acquire/acquire_up_to requests biased to {1, capacity-1, capacity, capacity+1, "
+    "Plans: ring size from {1,2,3,8,16,64,100,4096} (1.5%: 2 GiB ... 8 GiB, address space only), 2-200 acquire/acquire_up_to requests biased to {1, capacity-1, capacity, capacity+1, "
     "fractions}, FIFO releases with generated delays; 80% two-thread runs (acquirer + releaser, decision point at every atomic load/store "
     "of head/tail), 20% single-thread histories. Distinct = synchronisation-order fingerprint (per-object sequence of operating threads); "
     "non-trivial = both threads operated on a shared atomic, at least one preemption and at least two successful acquires "
